@@ -17,6 +17,7 @@ from vlib import common as C
 
 sys.path.insert(0, os.path.join(C.ROOT, "tools"))
 import translate_real  # noqa: E402
+import mk_minifloat  # noqa: E402
 from cxx2lean import Refuse  # noqa: E402
 
 EPS = 2.0 ** -52
@@ -189,8 +190,21 @@ def run(chk, replay=None):
     except Refuse as e:
         broken.append("translator tools/translate_real.py refuses the current real.h/string.h/utility.h: %s" % e)
 
+    ext = None
+    try:
+        ext, changed2 = translate_real.emit_ext(os.path.join(C.LEAN, "Vita", "C13", "GenExt.lean"))
+        chk.cov["classes"] = [c[0] for c in ext["classes"]]
+        chk.cov["headers"] = ext["headers"]
+        chk.cov["gen_ext_changed_vs_committed"] = bool(changed2)
+    except Refuse as e:
+        broken.append("translator tools/translate_real.py refuses the class tables / boolean primitives / terminals / "
+                      "init / penalty of the current sources: %s" % e)
+    bad_tables = mk_minifloat.check(os.path.join(C.LEAN, "Vita", "C13", "Mini.lean"))
+    if bad_tables:
+        broken.append("the libm tables of the 6-bit format (Vita/C13/Mini.lean) differ from the recomputed ones: %s" % bad_tables)
+
     drv_ok = False
-    if names is not None:
+    if names is not None and ext is not None:
         ok, out = C.lake_build(["c13_driver"])
         drv_ok = ok
         if not ok:
@@ -260,6 +274,61 @@ def run(chk, replay=None):
             for a in ("I3", "S61", D(1.0)):
                 for b in ("I3", "S61", D(1.0)):
                     lines.append(f"run {op} 0 {a} {b} {D(2.0)} {M1} {M2}")
+        # the other symbol kinds: boolean family, variables, constants (GenExt.lean)
+        ints = ["I0", "I1", "I-1", "I2", "I2147483647", "I-2147483648"]
+        for a in ints + ["V", D(1.0), "S61"]:
+            lines.append(f"run bnot 0 {a} V V V V")
+            for b in ints + ["V", D(0.0), "S-"]:
+                lines.append(f"run band 0 {a} {b} V V V")
+                lines.append(f"run bor 0 {a} {b} V V V")
+        lines.append("run bzero 0 V V V V V")
+        lines.append("run bone 0 I5 V V V V")
+        exv = [D(1.5), "I7", "S6162", "V", D(-0.0)]
+        for k in range(0, 8):
+            lines.append(f"run var{k} 0 " + " ".join(exv))
+            lines.append(f"run var{k} 0 " + " ".join(BV[rng.below(len(BV))] for _ in range(5)))
+        for x in B:
+            if x == 0.0 or abs(x) >= DMIN:      # std::stod refuses subnormal texts: no such constant can be built
+                lines.append(f"run cdbl {D(x)[1:]} V V V V V")
+        for a in ints:
+            lines.append(f"run cint 0 {a} V V V V")
+        for a in strs[:-1]:
+            lines.append(f"run cstr 0 {a} V V V V")
+        # init() of the parametric terminals: finite bounds whose difference is finite (the precondition of
+        # std::uniform_real_distribution) – boundary intervals and random ones
+        rpairs = [(-1000.0, 1000.0), (0.0, 1.0), (-1e-300, 1e-300), (1.0, nxt(1.0, 1)), (-DMAX / 2.5, DMAX / 2.5),
+                  (DENORM, 2 * DENORM), (-DMAX, -DMAX / 2), (DMAX / 2, DMAX), (-0.0, DENORM), (1e308, 1.5e308)]
+        for _ in range(40 if quick else 1500):
+            a, b = fromb(int(draw_fin(rng), 16)), fromb(int(draw_fin(rng), 16))
+            if a != b and is_fin(max(a, b) - min(a, b)):
+                rpairs.append((min(a, b), max(a, b)))
+        for (a, b) in rpairs:
+            for _ in range(3 if quick else 8):
+                lines.append(f"init real {D(a)[1:]} {D(b)[1:]} {rng.below(1 << 31)}")
+        # probes outside that precondition (upp - min overflows): reported through the known finding
+        for (a, b) in ((-DMAX, DMAX), (-1e308, 1e308), (-DMAX, 1.0)):
+            lines.append(f"init real {D(a)[1:]} {D(b)[1:]} {rng.below(1 << 31)}")
+        ipairs = [(-128, 127), (-2147483648, 2147483647), (-2147483648, -2147483647), (2147483646, 2147483647), (0, 1),
+                  (-1, 0)]
+        for _ in range(20 if quick else 600):
+            a, b = rng.between(-2147483648, 2147483648), rng.between(-2147483648, 2147483648)
+            if a != b:
+                ipairs.append((min(a, b), max(a, b)))
+        for (a, b) in ipairs:
+            for _ in range(3 if quick else 8):
+                lines.append(f"init integer {a} {b} {rng.below(1 << 31)}")
+        # penalty_nvi = comparison_function_penalty: the four argument rows of a FIFE / FIFL gene
+        for i0 in (1, 2):
+            for i1 in (1, 2):
+                for i2 in (1, 2, 3):
+                    for i3 in (1, 3, 4):
+                        lines.append(f"pen {i0} {i1} {i2} {i3}")
+        for _ in range(40 if quick else 400):
+            lines.append("pen " + " ".join(str(rng.between(1, 9)) for _ in range(4)))
+        # constants built by symbol_factory::make from a text token
+        for txt in ("1.5", "-0.0", "1.0e99", "1e999", "1.0e999", "inf", "nan", "-inf", "0x1p3", "1e-400", "1.0e-400",
+                    "12", "-7", "2147483648", "abc", "1.5e308", "1.8e308", "4.9e-324", ".5", "5."):
+            lines.append("lex - " + txt.encode().hex())
         # random tuples: random finite bit patterns, boundary values, near-equal pairs
         nrand = 120000 if quick else 1500000
         allops = UNARY + BINARY + ["ife", "ifl", "ifz", "ifb"]
@@ -306,7 +375,42 @@ def run(chk, replay=None):
         for x in B:
             for d in ds:
                 law_lines.append(f"law {D(x)[1:]} {d}")
-    lean = C.run_driver("c13_driver", lines + law_lines) if drv_ok else None
+    core_lines, mini_lines = [], []
+    if not replay:
+        XB = [D(x)[1:] for x in B] + ["7ff0000000000000", "fff0000000000000", "7ff8000000000000"]
+        for _ in range(6000 if quick else 120000):
+            core_lines.append("core %s %s %s" % (XB[rng.below(len(XB))] if rng.below(2) else draw_fin(rng),
+                                                 XB[rng.below(len(XB))] if rng.below(2) else draw_fin(rng),
+                                                 XB[rng.below(len(XB))] if rng.below(2) else draw_fin(rng)))
+        for x in XB:
+            for y in ("3ff0000000000000", "3ff0000000000001", "4000000000000000", "7fefffffffffffff", "7ff0000000000000"):
+                core_lines.append(f"core {x} {y} {x}")
+        for op in ("neg", "fabs", "floor", "sqrt", "log", "exp", "sin", "cos", "isfinite"):
+            for a in range(64):
+                mini_lines.append(f"mini {op} {a} 0")
+        for op in ("add", "sub", "mul", "div", "fmod", "fmin", "fmax", "lt", "le", "eq"):
+            for a in range(64):
+                for b in range(64):
+                    mini_lines.append(f"mini {op} {a} {b}")
+    n_law0 = len(lines)
+    n_core0 = n_law0 + len(law_lines)
+    n_mini0 = n_core0 + len(core_lines)
+    # the model answers the same lines; `init … <seed>` becomes `init … <the value the code drew>`
+    mlines = []
+    for q, a in zip(lines, cpp):
+        t = q.split()
+        if t[0] == "init" and a.split() and len(a.split()[0]) == 16:
+            x = fromb(int(a.split()[0], 16))
+            if t[1] == "real":
+                mlines.append(f"init real {t[2]} {t[3]} {a.split()[0]}")
+            else:
+                mlines.append(f"init integer {t[2]} {t[3]} {int(x) if is_fin(x) else 0}")
+        elif t[0] == "lex":
+            mlines.append("names")
+        else:
+            mlines.append(q)
+    mlines += lines[len(mlines):]
+    lean = C.run_driver("c13_driver", mlines + law_lines + core_lines + mini_lines) if drv_ok else None
 
     if lean is not None and lean[0].split() != cpp[0].split():
         broken.append("primitive sets differ: the sources (AST) have [%s], the harness drives [%s]" % (lean[0], cpp[0]))
@@ -324,17 +428,84 @@ def run(chk, replay=None):
                     chk.count("fn_bits_differ:" + lines[i].split()[1])
                     if len(chk.notes) < 5:
                         chk.notes.append("Lean runtime and libstdc++ differ on `%s`: %s vs %s" % (lines[i], lean[i], cpp[i]))
-        for i in range(len(lines), len(lean)):
-            chk.count("law_checks")
+        for i in range(n_law0, min(n_mini0, len(lean))):
+            chk.count("law_checks" if i < n_core0 else "core_law_checks")
             if lean[i] != "ok":
                 chk.count("law_failed")
-                broken.append("IEEE law fails on hardware doubles: `%s` -> %s" % (law_lines[i - len(lines)], lean[i]))
+                broken.append("IEEE law fails on hardware doubles: `%s` -> %s" % ((law_lines + core_lines)[i - n_law0], lean[i]))
+        nmini = 0
+        for i in range(n_mini0, len(lean)):
+            q = mini_lines[i - n_mini0].split()
+            chk.count("mini_format_ops")
+            want = mk_minifloat.op("log" if q[1] == "log" else q[1], int(q[2]), int(q[3]))
+            if lean[i] != want:
+                nmini += 1
+                if nmini <= 3:
+                    broken.append("the 6-bit IEEE-style format of Vita/C13/Mini.lean disagrees with the exact-fraction "
+                                  "reference (tools/mk_minifloat.py) on `%s`: %s vs %s" % (mini_lines[i - n_mini0], lean[i], want))
+        chk.cov["mini_format_disagreements"] = nmini
     chk.cov["ops_compared_by_value_only"] = sorted(loose)
 
     # ---- compare + oracle --------------------------------------------------------
     ndis = 0
     for i in range(1, min(len(lines), len(cpp))):
         t = lines[i].split()
+        if t[0] in ("init", "pen", "lex"):
+            c = cpp[i].split()
+            chk.seen(lines[i])
+            chk.count("kind:" + t[0] + (":" + t[1] if t[0] == "init" else ""))
+            m = lean[i] if lean is not None and i < len(lean) else None
+            rep = {"line": lines[i], "cpp": cpp[i], "model": m}
+            if not c or c[0] in ("died", "skipped", "bad-op"):
+                if c and c[0] == "bad-op":
+                    broken.append("harness does not understand `%s`" % lines[i])
+                continue
+            if t[0] == "init":
+                x = fromb(int(c[0], 16))
+                if t[1] == "real":
+                    lo, hi = fromb(int(t[2], 16)), fromb(int(t[3], 16))
+                    over = not is_fin(hi - lo)
+                    tags = {"op": "init", "class": "real::real", "kind": "range-overflow" if over else "in-contract",
+                            "min": repr(lo), "upp": repr(hi)}
+                    if not is_fin(x):
+                        chk.violation(f"real::real(c, {lo!r}, {hi!r}).init() returned the non-finite parameter {x!r}: a REAL "
+                                      f"gene then evaluates to it" + (" (upp - min overflows: outside the precondition of "
+                                      "std::uniform_real_distribution, which vita does not check)" if over else ""),
+                                      rep, tags=tags)
+                    elif not (lo <= x <= hi):
+                        chk.violation(f"real::real(c, {lo!r}, {hi!r}).init() returned {x!r}, outside [min, upp]", rep, tags=tags)
+                    if is_fin(x) and x == hi:
+                        chk.count("init_real_returned_upp")
+                else:
+                    lo, hi = int(t[2]), int(t[3])
+                    tags = {"op": "init", "class": "real::integer", "kind": "in-contract", "min": lo, "upp": hi}
+                    if not (is_fin(x) and x == int(x) and lo <= int(x) < hi):
+                        chk.violation(f"real::integer(c, {lo}, {hi}).init() returned {x!r}: not an integer of [{lo},{hi})",
+                                      rep, tags=tags)
+                if c[1:] != ["1"]:
+                    chk.violation(f"real::{t[1]}::parametric() is false", rep, tags={"op": "init"})
+                if m is not None and m != c[0]:
+                    ndis += 1
+                    if ndis <= 3:
+                        broken.append(f"generated init term disagrees with compiled code on `{lines[i]}`: model {m!r}, code {cpp[i]!r}")
+            elif t[0] == "pen":
+                ix = [int(v) for v in t[1:5]]
+                want = "%016x" % bits(float((ix[0] == ix[1]) + (ix[2] == ix[3])))
+                chk.count("penalty:" + str((ix[0] == ix[1]) + (ix[2] == ix[3])))
+                if c != [want, want]:
+                    chk.violation(f"penalty of FIFE / FIFL with argument rows {ix} is {c}, documented "
+                                  f"(i0==i1)+(i2==i3) = {want}", rep, tags={"op": "penalty", "rows": str(ix)})
+                if m is not None and m != c[0]:
+                    ndis += 1
+                    if ndis <= 3:
+                        broken.append(f"generated compPenalty disagrees with compiled code on `{lines[i]}`: model {m!r}, code {cpp[i]!r}")
+            else:
+                txt = bytes.fromhex(t[2]).decode()
+                chk.count("lex:" + c[0][0])
+                if c[0][0] == "D" and (int(c[0][1:], 16) >> 52) & 0x7FF == 0x7FF:
+                    chk.violation(f"symbol_factory::make({txt!r}) builds a constant<double> holding the non-finite value {c[0]}",
+                                  rep, tags={"op": "lex", "text": txt})
+            continue
         if t[0] != "run":
             continue
         op = t[1]
@@ -358,7 +529,8 @@ def run(chk, replay=None):
             chk.violation(f"real::{op} returned a non-finite double {c[0]} on finite/undefined arguments {t[3:]} par {t[2]}",
                           rep, tags=tags)
         # (2) strictness: an undefined argument that was asked for gives an undefined result
-        if any(j < len(args) and args[j][0] == "V" for j in asked) and res[0] != "V":
+        is_real_family = op in KNOWN
+        if is_real_family and any(j < len(args) and args[j][0] == "V" for j in asked) and res[0] != "V":
             chk.count("strictness_broken")
             chk.violation(f"real::{op} was given an undefined argument it asked for but returned {c[0]}: {t[3:]}",
                           rep, tags=tags)
@@ -384,6 +556,36 @@ def run(chk, replay=None):
                     chk.count("guard_fired:" + op)
         if not typed_real and res[0] == "T":
             chk.count("ill_typed_throw")
+        # (3b) the other symbol kinds: documented value computed here
+        want2 = None
+        if op in ("band", "bor", "bnot", "bzero", "bone"):
+            def iv(j):
+                return args[j][1] if j < len(args) and args[j][0] == "I" else None
+            a0, a1 = iv(0), iv(1)
+            if op == "bzero":
+                want2 = ("I0", [])
+            elif op == "bone":
+                want2 = ("I1", [])
+            elif a0 is None:
+                want2 = ("T", [0])
+            elif op == "bnot":
+                want2 = ("I1" if a0 == 0 else "I0", [0])
+            elif op == "band":
+                want2 = ("I0", [0]) if a0 == 0 else (("T", [0, 1]) if a1 is None else ("I1" if a1 != 0 else "I0", [0, 1]))
+            else:
+                want2 = ("I1", [0]) if a0 != 0 else (("T", [0, 1]) if a1 is None else ("I1" if a1 != 0 else "I0", [0, 1]))
+        elif op.startswith("var"):
+            k = int(op[3:])
+            want2 = (t[3 + k] if 3 + k < len(t) else "V", [])
+        elif op == "cdbl":
+            want2 = ("D" + t[2], [])
+        elif op in ("cint", "cstr"):
+            want2 = (t[3], [])
+        if want2 is not None:
+            chk.count("other_kind:" + (op if not op.startswith("var") else "var"))
+            if (c[0], asked) != want2:
+                chk.violation(f"{op} on {t[3:]} (par {t[2]}) answered {c[0]} asking for {asked}; documented {want2[0]} "
+                              f"asking for {want2[1]}", dict(rep, documented=want2), tags=tags)
         # (4) model vs code
         if lean is not None and i < len(lean) and lean[i] != cpp[i]:
             l = lean[i].split()
@@ -409,9 +611,12 @@ def run(chk, replay=None):
     if not replay:
         exe2 = C.build_harness("c01_interp", "asan", extra_flags=["-DWIRE_H_HASH=" + wh])
         reqs = []
-        for _ in range(250 if quick else 6000):
+        # single-category real programs and MULTI-category ones (typed3: real / int-boolean / string with ERCs of
+        # both numeric kinds, variables and constants of the three value types; str2: real / string)
+        for n in range(330 if quick else 8000):
             rows = rng.between(4, 41)
-            reqs.append(f"scn real {rng.next() % 1000000007} {rows} {1 + rng.below(min(rows - 1, 5))} "
+            sset = ("real", "real", "typed3", "str2")[n % 4]
+            reqs.append(f"scn {sset} {rng.next() % 1000000007} {rows} {1 + rng.below(min(rows - 1, 5))} "
                         f"{rng.below(3)} {rng.between(2, 5)}")
         ans2, deaths2 = C.run_lines(exe2, reqs, timeout=3000)
         for idx, rc, se in deaths2:
@@ -425,13 +630,13 @@ def run(chk, replay=None):
                     continue
                 if t[0] == "P":
                     prog = item
-                    chk.count("composition_programs")
+                    chk.count("composition_programs:" + q.split()[1])
                 elif t[0][0] == "R" and "=" in t:
                     r = t[t.index("=") + 1]
                     chk.evaluations += 1
                     chk.count("composition_result:" + r[0])
                     if r[0] == "D" and (int(r[1:], 16) >> 52) & 0x7FF == 0x7FF:
-                        chk.violation(f"a program over the real primitives returned the non-finite double {r} on the "
+                        chk.violation(f"a program over the shipped primitives (symbol set {q.split()[1]}) returned the non-finite double {r} on the "
                                       f"finite example [{' '.join(t[1:t.index('=')])}]: `{(prog or '')[:300]}…`",
                                       {"request": q, "program": prog, "item": item},
                                       tags={"op": "program", "request": q})
